@@ -25,7 +25,7 @@ from cherab.core.laser import Laser
 from cherab.core.atomic import Line, deuterium, hydrogen, helium, carbon, neon
 from cherab.core.model import (ExcitationLine, RecombinationLine, ThermalCXLine, Bremsstrahlung, TotalRadiatedPower,
                                BeamCXLine, BeamEmissionLine, SingleRayAttenuator, GaussianLine, ZeemanTriplet,
-                               MultipletLineShape)
+                               MultipletLineShape, ParametrisedZeemanTriplet, StarkBroadenedLine)
 from cherab.core.model.laser import (SeldenMatobaThomsonSpectrum, ConstantSpectrum, GaussianSpectrum, UniformEnergyDensity,
                                      ConstantBivariateGaussian)
 
@@ -71,9 +71,15 @@ def gen_transform(rng, scale=0.3, toward_origin=False, dist=1.4):
     return {"t": t, "fwd": fwd, "up": up}
 
 
+PY_PROFILES = [0.0]      # probability that a generated profile is a Python callable (set per run by generate())
+
+
 def gen_profile(rng, base, spread=0.5):
-    return {"a": float("%.4g" % (base * math.exp(rng.uniform(-spread, spread)))),
-            "g": [round(rng.choice([-1, 1]) * rng.uniform(0.15, 0.6), 3) for _ in range(3)]}
+    p = {"a": float("%.4g" % (base * math.exp(rng.uniform(-spread, spread)))),
+         "g": [round(rng.choice([-1, 1]) * rng.uniform(0.15, 0.6), 3) for _ in range(3)]}
+    if rng.random() < PY_PROFILES[0]:
+        p["py"] = True
+    return p
 
 
 def gen_dist(rng, mass, n0, t0):
@@ -115,10 +121,14 @@ def gen_line(rng, species):
 
 def gen_lineshape(rng):
     u = rng.random()
-    if u < 0.6:
+    if u < 0.5:
         return {"cls": "gaussian"}
-    if u < 0.8:
+    if u < 0.65:
         return {"cls": "zeeman"}
+    if u < 0.78:
+        return {"cls": "pzeeman", "params": [round(rng.uniform(0.02, 0.2), 4), round(rng.uniform(0.0, 1.5), 3), round(rng.uniform(0.0, 1.0), 3)]}
+    if u < 0.88:
+        return {"cls": "stark", "coeffs": [round(rng.uniform(2e-3, 4e-3), 6), round(rng.uniform(0.6, 0.8), 4), round(rng.uniform(0.02, 0.04), 5)]}
     return {"cls": "multiplet", "mult": [[round(rng.uniform(-0.3, 0.3), 3) for _ in range(2)], [0.4, 0.6]]}
 
 
@@ -394,7 +404,35 @@ def mk_transform(t):
     return translate(*t["t"]) * rotate_basis(Vector3D(*t["fwd"]), Vector3D(*t["up"]))
 
 
+_CURRENT = [None]     # scene whose profile-call counter / fault plan newly built Python profiles bind to
+
+
+class SimProfile:
+    """A user-style Python profile function a*exp(g.x) behind a call counter and a call-indexed fault plan."""
+
+    def __init__(self, p, scene):
+        self.a = p["a"]
+        self.g = p["g"]
+        self.scene = scene
+
+    def __call__(self, x, y, z):
+        sc = self.scene
+        if sc is not None:
+            k = sc.pcounter[0]
+            sc.pcounter[0] += 1
+            kind = sc.pfault_at.pop(k, None)
+            if kind is not None:
+                sc.fired.append((k, kind, "profile"))
+                if kind == "interrupt":
+                    raise SimInterrupt("injected interruption in profile call %d" % k)
+                raise SimFault("injected failure in profile call %d" % k)
+        g = self.g
+        return self.a * math.exp(g[0] * x + g[1] * y + g[2] * z)
+
+
 def mk_profile(p):
+    if p.get("py"):
+        return SimProfile(p, _CURRENT[0])
     g = p["g"]
     return p["a"] * Exp3D(g[0] * Arg3D("x") + g[1] * Arg3D("y") + g[2] * Arg3D("z"))
 
@@ -425,6 +463,10 @@ def mk_lineshape_kw(ls):
         return {"lineshape": GaussianLine}
     if ls["cls"] == "zeeman":
         return {"lineshape": ZeemanTriplet}
+    if ls["cls"] == "pzeeman":
+        return {"lineshape": ParametrisedZeemanTriplet, "lineshape_kwargs": {"line_parameters": tuple(ls["params"])}}
+    if ls["cls"] == "stark":
+        return {"lineshape": StarkBroadenedLine, "lineshape_kwargs": {"stark_model_coefficients": tuple(ls["coeffs"])}}
     return {"lineshape": MultipletLineShape, "lineshape_args": [ls["mult"]]}
 
 
@@ -466,11 +508,14 @@ class Scene:
         self.fault_at = {}
         self.fired = []
         self.laser = None
+        self.pcounter = [0]
+        self.pfault_at = {}
 
 
 def build_scene(spec):
     """Canonical construction order: everything that determines geometry and data sources first, models last."""
     s = Scene()
+    _CURRENT[0] = s
     s.world = World()
     for pv in spec["providers"]:
         s.providers.append(SimAtomicData(pv["id"], pv["param"], pv["missing"], s.counter, s.fault_at, s.fired))
@@ -574,6 +619,7 @@ class SceneMachine(Machine):
     def generate(self, rng, tier):
         nprov = rng.choice([1, 2, 2])
         fault_mode = rng.choices(["off", "persistent", "interrupt"], weights=[60, 20, 20])[0]
+        PY_PROFILES[0] = rng.choice([0.0, 0.0, 0.0, 0.15, 0.4])
         spec = {"providers": [], "frames": {}, "plasmas": [], "beams": []}
         for i in range(nprov):
             spec["providers"].append({"id": i, "param": round(1.0 + 0.6 * i + rng.uniform(0, 0.2), 4), "missing": []})
@@ -613,7 +659,11 @@ class SceneMachine(Machine):
             elif u < 0.93:
                 ops.append({"op": "gc"})
             elif fault_mode == "interrupt":
-                ops.append({"op": "fault.arm", "after": rng.choice([0, 0, 1, 2, 3, 5, 8]), "kind": rng.choice(["error", "interrupt"])})
+                if PY_PROFILES[0] > 0 and rng.random() < 0.5:
+                    ops.append({"op": "fault.arm", "seam": "profile", "after": rng.choice([0, 1, 7, 30, 120, 400]),
+                                "kind": rng.choice(["error", "interrupt"])})
+                else:
+                    ops.append({"op": "fault.arm", "after": rng.choice([0, 0, 1, 2, 3, 5, 8]), "kind": rng.choice(["error", "interrupt"])})
             elif fault_mode == "persistent":
                 ops.append({"op": "provider.swap", "which": rng.randrange(4)})
             else:
@@ -908,7 +958,10 @@ class SceneMachine(Machine):
         if k == "fault.arm":
             if c.cfg["fault_mode"] != "interrupt":
                 return "noop"
-            s.fault_at[s.counter[0] + int(op["after"])] = op["kind"]
+            if op.get("seam") == "profile":
+                s.pfault_at[s.pcounter[0] + int(op["after"])] = op["kind"]
+            else:
+                s.fault_at[s.counter[0] + int(op["after"])] = op["kind"]
             env.fault_armed("call-k-" + op["kind"])
             env.event(k, "armed")
             return "armed"
@@ -956,12 +1009,14 @@ class SceneMachine(Machine):
     def finish(self, c, env):
         # disarm transient faults: the final configuration is healthy
         c.scene.fault_at.clear()
+        c.scene.pfault_at.clear()
         self._full_check(c, env, "finish")
 
     # ------------------------------------------------------------------ mutators (public API + specification in lock-step)
     def _mutate(self, c, op, env):
         k = op["op"]
         s, sp = c.scene, c.spec
+        _CURRENT[0] = s
         if k.startswith("p.") or k == "frame.transform":
             if k == "frame.transform":
                 if op["name"] not in s.frames:
